@@ -477,3 +477,350 @@ theorem allIn_isAscii_of_alnum {s : Str} (h : AllIn isAsciiAlnum s) : AllIn isAs
   h.of_imp (fun _ hc => isAscii_of_alnum hc)
 
 end Py
+
+/-! ## regular-expression gates in alphabet form -/
+
+namespace Py.Re
+variable [T : UniTables]
+
+/-- the characters a set item can match, when that is a finite list (no categories) -/
+def ClassItem.charList : ClassItem → List Nat
+  | .chr c => [c]
+  | .range lo hi => rangeNats lo hi
+  | .cat _ => []
+
+def ClassItem.listOk : ClassItem → Bool
+  | .cat _ => false
+  | _ => true
+
+/-- an explicit finite over-approximation of the characters `r` can consume
+(valid when `charListOk`: no IGNORECASE, no negated sets, no `.`, no categories, no back-references) -/
+def Regex.charList : Flags → Regex → List Nat
+  | _, .lit a => [a]
+  | _, .cls _ items => (items.map ClassItem.charList).flatten
+  | fl, .seq a b => charList fl a ++ charList fl b
+  | fl, .alt a b => charList fl a ++ charList fl b
+  | fl, .rep _ _ _ r => charList fl r
+  | fl, .group _ r => charList fl r
+  | _, .withFlags fl' r => charList fl' r
+  | _, _ => []
+
+def Regex.charListOk : Flags → Regex → Bool
+  | _, .empty => true
+  | _, .fail => true
+  | fl, .lit _ => !fl.ignorecase
+  | fl, .cls neg items => !fl.ignorecase && !neg && items.all ClassItem.listOk
+  | fl, .seq a b => charListOk fl a && charListOk fl b
+  | fl, .alt a b => charListOk fl a && charListOk fl b
+  | fl, .rep _ _ _ r => charListOk fl r
+  | fl, .group _ r => charListOk fl r
+  | _, .withFlags fl' r => charListOk fl' r
+  | _, .anchor _ => true
+  | _, .look _ _ => true
+  | _, _ => false
+
+omit T in
+theorem mem_rangeNats {lo hi c : Nat} : c ∈ rangeNats lo hi ↔ lo ≤ c ∧ c ≤ hi := by
+  unfold rangeNats
+  rw [List.mem_range'_1]
+  omega
+
+theorem itemMatch_charList {fl : Flags} {c : Nat} {it : ClassItem} (hok : it.listOk = true)
+    (h : itemMatch fl c it = true) : c ∈ it.charList := by
+  cases it with
+  | chr a => simp only [itemMatch, beq_iff_eq] at h; simp [ClassItem.charList, h]
+  | range lo hi =>
+    simp only [itemMatch, Bool.and_eq_true, decide_eq_true_eq] at h
+    exact mem_rangeNats.mpr h
+  | cat k => simp [ClassItem.listOk] at hok
+
+theorem charPred_charList : ∀ (r : Regex) (fl : Flags) (c : Nat), r.charListOk fl = true →
+    r.charPred fl c = true → (r.charList fl).contains c = true
+  | .empty, _, _, _, h => by simp [Regex.charPred] at h
+  | .fail, _, _, _, h => by simp [Regex.charPred] at h
+  | .lit a, fl, c, hok, h => by
+    simp only [Regex.charListOk, Bool.not_eq_true'] at hok
+    simp only [Regex.charPred, litMatch, hok, Bool.false_and, Bool.false_eq_true, if_false, beq_iff_eq] at h
+    simp [Regex.charList, h]
+  | .notLit a, _, _, hok, _ => by simp [Regex.charListOk] at hok
+  | .any, _, _, hok, _ => by simp [Regex.charListOk] at hok
+  | .cls neg items, fl, c, hok, h => by
+    simp only [Regex.charListOk, Bool.and_eq_true, Bool.not_eq_true', List.all_eq_true] at hok
+    obtain ⟨⟨h1, h2⟩, h3⟩ := hok
+    simp only [Regex.charPred, classMatch, h1, h2, Bool.false_and, Bool.false_eq_true, if_false, bne_iff_ne, ne_eq,
+      Bool.not_eq_false, List.any_eq_true] at h
+    obtain ⟨it, hit, hm⟩ := h
+    simp only [Regex.charList, List.contains_eq_mem, List.mem_flatten, List.mem_map, decide_eq_true_eq]
+    exact ⟨it.charList, ⟨it, hit, rfl⟩, itemMatch_charList (h3 it hit) hm⟩
+  | .seq a b, fl, c, hok, h => by
+    simp only [Regex.charListOk, Bool.and_eq_true] at hok
+    simp only [Regex.charPred, Bool.or_eq_true] at h
+    simp only [Regex.charList, List.contains_eq_mem, List.mem_append, decide_eq_true_eq]
+    rcases h with h | h
+    · left; simpa using charPred_charList a fl c hok.1 h
+    · right; simpa using charPred_charList b fl c hok.2 h
+  | .alt a b, fl, c, hok, h => by
+    simp only [Regex.charListOk, Bool.and_eq_true] at hok
+    simp only [Regex.charPred, Bool.or_eq_true] at h
+    simp only [Regex.charList, List.contains_eq_mem, List.mem_append, decide_eq_true_eq]
+    rcases h with h | h
+    · left; simpa using charPred_charList a fl c hok.1 h
+    · right; simpa using charPred_charList b fl c hok.2 h
+  | .rep _ _ _ r, fl, c, hok, h => by
+    simp only [Regex.charListOk] at hok
+    simp only [Regex.charPred] at h
+    simpa [Regex.charList] using charPred_charList r fl c hok h
+  | .group _ r, fl, c, hok, h => by
+    simp only [Regex.charListOk] at hok
+    simp only [Regex.charPred] at h
+    simpa [Regex.charList] using charPred_charList r fl c hok h
+  | .withFlags fl' r, fl, c, hok, h => by
+    simp only [Regex.charListOk] at hok
+    simp only [Regex.charPred] at h
+    simpa [Regex.charList] using charPred_charList r fl' c hok h
+  | .anchor _, _, _, _, h => by simp [Regex.charPred] at h
+  | .backref _, _, _, hok, _ => by simp [Regex.charListOk] at hok
+  | .look _ _, _, _, _, h => by simp [Regex.charPred] at h
+
+end Py.Re
+
+namespace Py.Re
+variable [T : UniTables]
+
+/-- **regex gate, alphabet form**: a successful `re.match` with a `^…$` pattern on a subject that does not end in a
+newline: every character is in the finite list `charList`, the length is within `lenBound` -/
+theorem match_gate {p : Pattern} {s : Str} (he : p.re.endsAtEol p.flags = true)
+    (hok : p.re.charListOk p.flags = true) (h : (match_ p s).isSome = true) (hs : s.getLast? ≠ some 10) :
+    s.all (fun c => (p.re.charList p.flags).contains c) = true ∧ LenIn p.re.lenBound s.length := by
+  obtain ⟨m, hm⟩ := Option.isSome_iff_exists.mp h
+  obtain ⟨core, hc, _, _, _, hall, hlen⟩ := match_shape_eol he hm
+  have hsc : s = core := by
+    rcases hc with rfl | rfl
+    · rfl
+    · exact absurd (by simp) hs
+  subst hsc
+  refine ⟨?_, hlen⟩
+  rw [List.all_eq_true]
+  intro c hc
+  exact charPred_charList p.re p.flags c hok (hall c hc)
+
+theorem group_gate {p : Pattern} {s : Str} {m : Match} {i : Nat} {t : Str} {fb : Flags × Regex}
+    (hm : m.FromRun p s) (hi : 0 < i) (hg : m.group i = some t)
+    (hb : p.re.groupBodies i p.flags = [fb]) (hok : fb.2.charListOk fb.1 = true) :
+    t.all (fun c => (fb.2.charList fb.1).contains c) = true ∧ LenIn fb.2.lenBound t.length := by
+  obtain ⟨fb', hfb, hall, hlen⟩ := group_shape hm hi hg
+  rw [hb, List.mem_singleton] at hfb
+  subst hfb
+  refine ⟨?_, hlen⟩
+  rw [List.all_eq_true]
+  intro c hc
+  exact charPred_charList _ _ c hok (hall c hc)
+
+theorem group_gate_named {p : Pattern} {s : Str} {m : Match} {name : Str} {i : Nat} {t : Str} {fb : Flags × Regex}
+    (hm : m.FromRun p s) (hg : m.groupNamedR name = .ok t)
+    (hname : (p.names.find? (fun q => q.1 == name)).map (·.2) = some i) (hi : 0 < i)
+    (hb : p.re.groupBodies i p.flags = [fb]) (hok : fb.2.charListOk fb.1 = true) :
+    t.all (fun c => (fb.2.charList fb.1).contains c) = true ∧ LenIn fb.2.lenBound t.length := by
+  obtain ⟨j, hj, hgj⟩ := Match.groupNamedR_ok hg
+  have : j = i := by
+    unfold Match.index at hj
+    rw [hm.names_eq, hname] at hj
+    exact (Option.some.inj hj).symm
+  subst this
+  exact group_gate hm hi hgj hb hok
+
+omit T in
+/-- fixed length from the bounds -/
+theorem LenIn.eq_of_fixed {b : Nat × Option Nat} {n k : Nat} (h : LenIn b n) (hb : b = (k, some k)) : n = k := by
+  subst hb
+  have h1 := h.1
+  have h2 := h.2 k rfl
+  simp only at h1
+  omega
+
+omit T in
+theorem LenIn.lower {b : Nat × Option Nat} {n : Nat} (h : LenIn b n) : b.1 ≤ n := h.1
+omit T in
+theorem LenIn.upper {b : Nat × Option Nat} {n k : Nat} (h : LenIn b n) (hb : b.2 = some k) : n ≤ k := h.2 k hb
+
+end Py.Re
+
+namespace Py
+
+/-! no trailing newline -/
+theorem getLast?_strip_ne (x : Str) : (strip x).getLast? ≠ some 10 := by
+  intro h
+  have := strip_getLast?_not_space x 10 h
+  revert this; decide
+
+theorem getLast?_drop_ne {s : Str} (h : s.getLast? ≠ some 10) (k : Nat) : (s.drop k).getLast? ≠ some 10 := by
+  intro hd
+  apply h
+  by_cases hk : k < s.length
+  · have : s.drop k ≠ [] := by
+      intro e; have := congrArg List.length e; simp at this; omega
+    rw [List.getLast?_eq_some_getLast this] at hd
+    have hne : s ≠ [] := by intro e; subst e; simp at hk
+    rw [List.getLast?_eq_some_getLast hne]
+    rw [List.getLast_drop] at hd
+    exact hd
+  · have : s.drop k = [] := List.drop_eq_nil_of_le (by omega)
+    rw [this] at hd; simp at hd
+
+theorem getLast?_slice_some_none_ne {s : Str} (h : s.getLast? ≠ some 10) (a : Int) :
+    (slice s (some a) none).getLast? ≠ some 10 := by
+  rw [slice_eq_sliceL, sliceL_some_none]
+  exact getLast?_drop_ne h _
+
+theorem getLast?_ne_of_allIn {s : Str} {P : Nat → Bool} (h : AllIn P s) (hP : P 10 = false) : s.getLast? ≠ some 10 := by
+  intro hl
+  have := h 10 (List.mem_of_getLast? hl)
+  rw [hP] at this; cases this
+
+end Py
+
+namespace Py
+
+/-- `m.group('name')` used as a string: the graph (the gate lemmas `Py.Re.group_gate_named`, and
+`Py.Re.Match.groupNamedR_ok_of_setsGroup` for the exceptional branch, are applied by `py_vc`) -/
+@[spec] theorem groupNamedR_spec (m : Re.Match) (name : Str) :
+    ⦃⌜True⌝⦄ m.groupNamedR name
+    ⦃post⟨fun t => ⌜m.groupNamedR name = .ok t⌝, fun e => ⌜m.groupNamedR name = .error e⌝⟩⦄ :=
+  triple_of_holds _ _ _ (by unfold Holds; cases h : m.groupNamedR name <;> rfl)
+
+@[spec] theorem groupR_spec (m : Re.Match) (i : Nat) :
+    ⦃⌜True⌝⦄ m.groupR i ⦃post⟨fun t => ⌜m.groupR i = .ok t⌝, fun e => ⌜m.groupR i = .error e⌝⟩⦄ :=
+  triple_of_holds _ _ _ (by unfold Holds; cases h : m.groupR i <;> rfl)
+
+end Py
+
+namespace Py
+
+theorem isDigits_of_alphabet {A t : Str} (hs : t.all (fun c => A.contains c) = true) (hA : A.all isAsciiDigit = true)
+    (hl : 0 < t.length) (hu : t.length ≤ 4300) : IsDigits t ∧ t.length ≤ 4300 :=
+  ⟨⟨List.ne_nil_of_length_pos hl, allIn_of_alphabet hs hA⟩, hu⟩
+
+end Py
+
+
+namespace Py
+theorem upperFullTab_nonempty : Uni.Data.upperFullTab.toList.all (fun e => !e.2.isEmpty) = true := by decide +kernel
+
+theorem upperC_ne_nil (c : Nat) : Uni.upperC c ≠ [] := by
+  unfold Uni.upperC
+  split
+  · simp
+  · split
+    · rename_i l h
+      have hm := Uni.pointVal_some h
+      have := List.all_eq_true.mp upperFullTab_nonempty _ hm
+      intro e; rw [e] at this; simp at this
+    · simp
+
+/-- `upper()` does not create a trailing newline -/
+theorem getLast?_upper_ne {s : Str} (h : s.getLast? ≠ some 10) : (upper s).getLast? ≠ some 10 := by
+  intro hu
+  apply h
+  rcases List.eq_nil_or_concat s with rfl | ⟨s', c, rfl⟩
+  · simp [upper] at hu
+  · rw [List.concat_eq_append, upper_append] at hu
+    have hc : upper [c] ≠ [] := by
+      unfold upper; simp only [List.flatMap_cons, List.flatMap_nil, List.append_nil]; exact upperC_ne_nil c
+    rw [List.getLast?_append] at hu
+    have hu' : (upper [c]).getLast? = some 10 := by
+      cases hb : (upper [c]).getLast? with
+      | none => rw [List.getLast?_eq_none_iff] at hb; exact absurd hb hc
+      | some x => rw [hb] at hu; simpa using hu
+    have hmem : 10 ∈ upper [c] := List.mem_of_getLast? hu'
+    have := upper_ascii_nonupper_origin [c] 10 hmem (by decide) (by decide)
+    simp only [List.mem_singleton] at this
+    subst this
+    simp
+end Py
+
+namespace Py
+
+/-- class facts from membership in a literal list and from one-character results of `str(int)` -/
+theorem of_mem {A : Str} {Q : Nat → Bool} (hQ : A.all Q = true) {c : Nat} (hc : c ∈ A) : Q c = true :=
+  List.all_eq_true.mp hQ c hc
+
+theorem of_strOfInt_eq {Q : Nat → Bool} (hQ : (45 :: List.range' 48 10).all Q = true) {n : Int} {c : Nat}
+    (h : strOfInt n = [c]) : Q c = true := by
+  have := strOfInt_allIn n c (by rw [h]; simp)
+  simp only [Bool.or_eq_true, beq_iff_eq] at this
+  rcases this with hd | rfl
+  · exact of_isAsciiDigit (Q := Q) (by
+      simp only [List.all_cons, Bool.and_eq_true] at hQ; exact hQ.2) hd
+  · simp only [List.all_cons, Bool.and_eq_true] at hQ; exact hQ.1
+
+theorem of_strOfInt_eq' {Q : Nat → Bool} (hQ : (45 :: List.range' 48 10).all Q = true) {n : Int} {c : Nat}
+    (h : [c] = strOfInt n) : Q c = true := of_strOfInt_eq hQ h.symm
+
+end Py
+
+namespace Py
+
+/-- `d[k]` with the key known to be present: the value is the one stored under `k` -/
+@[spec high] theorem dictGet_spec2 {κ ν : Type} [BEq κ] [LawfulBEq κ] (d : List (κ × ν)) (k : κ) (h : dictHas d k = true) :
+    ⦃⌜True⌝⦄ dictGet d k ⦃post⟨fun v => ⌜(k, v) ∈ d⌝, fun _ => ⌜False⌝⟩⦄ := by
+  apply triple_of_Ok
+  unfold dictGet
+  unfold dictHas at h
+  cases hd : dictGet? d k with
+  | none => simp [hd] at h
+  | some v => exact ⟨v, rfl, dictGet?_mem d k v hd⟩
+
+/-- the values of a literal `dict` with `int` values are small (for `datetime.date(..)` range conditions) -/
+theorem dict_val_small {κ : Type} {D : List (κ × Int)}
+    (hD : D.all (fun p => decide (-1000000 < p.2) && decide (p.2 < 1000000)) = true) {k : κ} {v : Int}
+    (h : (k, v) ∈ D) : -1000000 < v ∧ v < 1000000 := by
+  have := List.all_eq_true.mp hD _ h
+  simpa using this
+
+end Py
+
+namespace Py
+
+/-- reflexive spec of `s[i]` (family C05g: both sides of the check-digit comparison are kept as equations) -/
+theorem getItem_graph (s : Str) (i : Int) :
+    ⦃⌜True⌝⦄ getItem s i ⦃post⟨fun r => ⌜getItem s i = .ok r⌝, fun _ => ⌜True⌝⟩⦄ :=
+  pc_triple (fun _ h => h)
+
+end Py
+
+namespace Py
+
+/-! ## idempotence of the stripping operations (for `compact (compact x) = compact x`) -/
+
+theorem lstripBy_idem (p : Nat → Bool) (s : Str) : lstripBy p (lstripBy p s) = lstripBy p s :=
+  lstripBy_eq_self p _ (lstripBy_head p s)
+
+theorem rstripBy_idem (p : Nat → Bool) (s : Str) : rstripBy p (rstripBy p s) = rstripBy p s :=
+  rstripBy_eq_self p _ (rstripBy_getLast p s)
+
+theorem lstripChars_idem (s cs : Str) : lstripChars (lstripChars s cs) cs = lstripChars s cs := lstripBy_idem _ s
+theorem rstripChars_idem (s cs : Str) : rstripChars (rstripChars s cs) cs = rstripChars s cs := rstripBy_idem _ s
+theorem stripChars_idem (s cs : Str) : stripChars (stripChars s cs) cs = stripChars s cs := stripBy_idem _ s
+theorem lstrip_idem (s : Str) : lstrip (lstrip s) = lstrip s := lstripBy_idem _ s
+theorem rstrip_idem (s : Str) : rstrip (rstrip s) = rstrip s := rstripBy_idem _ s
+
+end Py
+
+namespace Py
+/-- `0-9A-Z` -/
+def alnum36 : Str := [48, 49, 50, 51, 52, 53, 54, 55, 56, 57, 65, 66, 67, 68, 69, 70, 71, 72, 73, 74, 75, 76, 77, 78, 79,
+  80, 81, 82, 83, 84, 85, 86, 87, 88, 89, 90]
+end Py
+
+namespace Py
+
+theorem dictGetD_small {κ : Type} [BEq κ] [LawfulBEq κ] {D : List (κ × Int)} (k : κ) (dflt : Int)
+    (hD : D.all (fun p => decide (-1000000 < p.2) && decide (p.2 < 1000000)) = true)
+    (hd : -1000000 < dflt ∧ dflt < 1000000) :
+    -1000000 < dictGetD D k dflt ∧ dictGetD D k dflt < 1000000 := by
+  unfold dictGetD
+  cases h : dictGet? D k with
+  | none => simpa using hd
+  | some v => simpa using dict_val_small hD (dictGet?_mem D k v h)
+
+end Py
